@@ -115,3 +115,94 @@ package server
 //@ loop 0
 //@   invariant matchKeys != nil && fresh(matchKeys) && fresh(matchKeys.msgs) && allocated(matchKeys.msgs) && matchKeys.index == 0
 //@   invariant forall j int :: 0 <= j && j < len(matchKeys.msgs) ==> matchKeys.msgs[j] != nil && fresh(matchKeys.msgs[j]) && matchKeys.msgs[j].bytes != nil && globMatch(glob_of[opt.MatchPattern], string(matchKeys.msgs[j].bytes))
+
+// ---------------------------------------------------------------- string.go / generic.go: the store as a map  (db id, key) -> record data
+// hasDB / kHas / kData read the abstract store: database id exists, key k is present in it, and the data stored under k.
+
+//@ spec func hasDB(s ref, id int) bool = sm_dom[&s.Databases.Map][iface(id)]
+//@ spec func recs(s ref, id int) ref = dbOf(s, id).Records
+//@ spec func kHas(s ref, id int, k string) bool = hasDB(s, id) && isRec(recs(s, id), k)
+//@ spec func kData(s ref, id int, k string) iface = recOf(recs(s, id), k).Data
+//@ spec func kIsStr(s ref, id int, k string) bool = kHas(s, id, k) && typeis(kData(s, id, k), "string")
+//@ spec func kStr(s ref, id int, k string) string = unbox(kData(s, id, k), "string")
+// (intReply and bulkReply are declared in /repo/redis/contracts_verif.go)
+//@ spec func nilReply(m ref) bool = m != nil && m.Type == proto.BulkMessage && m.bytes == nil
+//@ spec func statusReply(m ref, v string) bool = m != nil && m.Type == proto.StringMessage && m.bytes != nil && string(m.bytes) == v
+
+//@ func (*Server).Get
+//@ requires {C18} storeOK(server) && conn != nil
+//@ assigns sm_dom[&server.Databases.Map], sm_val[&server.Databases.Map]
+//@ ensures {C18} storeOK(server) && err == nil
+//@ ensures {C18} old(kIsStr(server, conn.id, key)) ==> bulkReply(result0, old(kStr(server, conn.id, key)))
+//@ ensures {C18} !old(kIsStr(server, conn.id, key)) ==> nilReply(result0)
+//@ ensures {C18} old(hasDB(server, conn.id)) ==> forall q iface :: sm_dom[&recs(server, conn.id).Map][q] == old(sm_dom[&recs(server, conn.id).Map][q]) && sm_val[&recs(server, conn.id).Map][q] == old(sm_val[&recs(server, conn.id).Map][q])
+
+//@ func (*Server).Set
+//@ requires {C18} storeOK(server) && conn != nil
+//@ assigns sm_dom[&server.Databases.Map], sm_val[&server.Databases.Map], sm_dom[&recs(server, conn.id).Map], sm_val[&recs(server, conn.id).Map]
+//@ ensures {C18} storeOK(server) && err == nil
+//@ ensures {C18} opt.NX && old(kHas(server, conn.id, key)) ==> intReply(result0, 0) && recOf(recs(server, conn.id), key) == old(recOf(recs(server, conn.id), key))
+//@ ensures {C18} !(opt.NX && old(kHas(server, conn.id, key))) ==> kIsStr(server, conn.id, key) && kStr(server, conn.id, key) == val
+//@ ensures {C18} opt.NX && !old(kHas(server, conn.id, key)) ==> intReply(result0, 1)
+//@ ensures {C18} !opt.NX && opt.GET && old(kIsStr(server, conn.id, key)) ==> bulkReply(result0, old(kStr(server, conn.id, key)))
+//@ ensures {C18} !opt.NX && opt.GET && !old(kIsStr(server, conn.id, key)) ==> nilReply(result0)
+//@ ensures {C18} !opt.NX && !opt.GET ==> statusReply(result0, "OK")
+//@ ensures {C18} old(hasDB(server, conn.id)) ==> forall q iface :: q != iface(key) ==> sm_dom[&recs(server, conn.id).Map][q] == old(sm_dom[&recs(server, conn.id).Map][q]) && sm_val[&recs(server, conn.id).Map][q] == old(sm_val[&recs(server, conn.id).Map][q])
+//@ ensures {C18} !old(hasDB(server, conn.id)) ==> forall q iface :: q != iface(key) ==> !sm_dom[&recs(server, conn.id).Map][q]
+
+//@ func (*Server).Exists
+//@ requires {C18} storeOK(server) && conn != nil
+//@ assigns sm_dom[&server.Databases.Map], sm_val[&server.Databases.Map]
+//@ ensures {C18} storeOK(server) && err == nil
+//@ ensures {C18} len(keys) == 1 ==> intReply(result0, (old(kHas(server, conn.id, keys[0])) ? 1 : 0))
+//@ ensures {C18} len(keys) == 0 ==> intReply(result0, 0)
+//@ ensures {C18} old(hasDB(server, conn.id)) ==> forall q iface :: sm_dom[&recs(server, conn.id).Map][q] == old(sm_dom[&recs(server, conn.id).Map][q]) && sm_val[&recs(server, conn.id).Map][q] == old(sm_val[&recs(server, conn.id).Map][q])
+//@ loop 0
+//@   invariant db != nil && db == dbOf(server, conn.id) && dbOK(db) && storeOK(server) && hasDB(server, conn.id)
+//@   invariant -1 <= rangeindex && rangeindex < len(keys) && 0 <= existCount && existCount <= rangeindex + 1
+//@   invariant rangeindex == 0 ==> existCount == (old(kHas(server, conn.id, keys[0])) ? 1 : 0)
+//@   invariant rangeindex == -1 ==> existCount == 0
+//@   invariant old(hasDB(server, conn.id)) ==> forall q iface :: sm_dom[&recs(server, conn.id).Map][q] == old(sm_dom[&recs(server, conn.id).Map][q]) && sm_val[&recs(server, conn.id).Map][q] == old(sm_val[&recs(server, conn.id).Map][q])
+//@   invariant !old(hasDB(server, conn.id)) ==> forall q iface :: !sm_dom[&recs(server, conn.id).Map][q]
+//@   decreases len(keys) - rangeindex
+
+//@ func (*Server).Del
+//@ requires {C18} storeOK(server) && conn != nil
+//@ assigns sm_dom[&server.Databases.Map], sm_val[&server.Databases.Map], sm_dom[&recs(server, conn.id).Map]
+//@ ensures {C18} storeOK(server) && err == nil
+//@ ensures {C18} forall j int :: 0 <= j && j < len(keys) ==> !kHas(server, conn.id, keys[j])
+//@ ensures {C18} len(keys) == 1 ==> intReply(result0, (old(kHas(server, conn.id, keys[0])) ? 1 : 0))
+//@ ensures {C18} old(hasDB(server, conn.id)) && len(keys) == 1 ==> forall q iface :: q != iface(keys[0]) ==> sm_dom[&recs(server, conn.id).Map][q] == old(sm_dom[&recs(server, conn.id).Map][q])
+//@ ensures {C18} forall q iface :: sm_dom[&recs(server, conn.id).Map][q] ==> old(hasDB(server, conn.id)) && old(sm_dom[&recs(server, conn.id).Map][q])
+//@ loop 0
+//@   invariant db != nil && db == dbOf(server, conn.id) && dbOK(db) && storeOK(server) && hasDB(server, conn.id)
+//@   invariant -1 <= rangeindex && rangeindex < len(keys) && 0 <= removedCount && removedCount <= rangeindex + 1
+//@   invariant forall j int :: 0 <= j && j <= rangeindex ==> !sm_dom[&db.Records.Map][iface(keys[j])]
+//@   invariant rangeindex == 0 ==> removedCount == (old(kHas(server, conn.id, keys[0])) ? 1 : 0)
+//@   invariant old(hasDB(server, conn.id)) && rangeindex == -1 ==> forall q iface :: sm_dom[&db.Records.Map][q] == old(sm_dom[&recs(server, conn.id).Map][q])
+//@   invariant old(hasDB(server, conn.id)) && rangeindex == 0 ==> forall q iface :: q != iface(keys[0]) ==> sm_dom[&db.Records.Map][q] == old(sm_dom[&recs(server, conn.id).Map][q])
+//@   invariant forall q iface :: sm_dom[&db.Records.Map][q] ==> old(hasDB(server, conn.id)) && old(sm_dom[&recs(server, conn.id).Map][q])
+//@   decreases len(keys) - rangeindex
+
+//@ func (*Server).Type
+//@ requires {C18} storeOK(server) && conn != nil
+//@ assigns sm_dom[&server.Databases.Map], sm_val[&server.Databases.Map]
+//@ ensures {C18} storeOK(server) && err == nil
+//@ ensures {C18} !old(kHas(server, conn.id, key)) ==> statusReply(result0, "none")
+//@ ensures {C18} old(kHas(server, conn.id, key)) && typeis(old(kData(server, conn.id, key)), "string") ==> statusReply(result0, "string")
+//@ ensures {C18} old(kHas(server, conn.id, key)) && typeis(old(kData(server, conn.id, key)), "server.Hash") ==> statusReply(result0, "hash")
+//@ ensures {C18} old(kHas(server, conn.id, key)) && typeis(old(kData(server, conn.id, key)), "*server.List") ==> statusReply(result0, "list")
+//@ ensures {C18} old(kHas(server, conn.id, key)) && typeis(old(kData(server, conn.id, key)), "*server.Set") ==> statusReply(result0, "set")
+//@ ensures {C18} old(kHas(server, conn.id, key)) && typeis(old(kData(server, conn.id, key)), "*server.ZSet") ==> statusReply(result0, "zset")
+//@ ensures {C18} old(hasDB(server, conn.id)) ==> forall q iface :: sm_dom[&recs(server, conn.id).Map][q] == old(sm_dom[&recs(server, conn.id).Map][q]) && sm_val[&recs(server, conn.id).Map][q] == old(sm_val[&recs(server, conn.id).Map][q])
+
+//@ func (*Server).Rename
+//@ requires {C18} storeOK(server) && conn != nil
+//@ assigns sm_dom[&server.Databases.Map], sm_val[&server.Databases.Map], sm_dom[&recs(server, conn.id).Map], sm_val[&recs(server, conn.id).Map], Record.Key
+//@ ensures {C18} storeOK(server)
+//@ ensures {C18} opt.NX && old(kHas(server, conn.id, newkey)) ==> err == nil && intReply(result0, 0) && kHas(server, conn.id, key) == old(kHas(server, conn.id, key))
+//@ ensures {C18} !(opt.NX && old(kHas(server, conn.id, newkey))) ==> (err == nil <==> old(kHas(server, conn.id, key)))
+//@ ensures {C18} !(opt.NX && old(kHas(server, conn.id, newkey))) && err == nil ==> kHas(server, conn.id, newkey) && kData(server, conn.id, newkey) == old(kData(server, conn.id, key))
+//@ ensures {C18} !(opt.NX && old(kHas(server, conn.id, newkey))) && err == nil && key != newkey ==> !kHas(server, conn.id, key)
+//@ ensures {C18} !(opt.NX && old(kHas(server, conn.id, newkey))) && err == nil ==> (opt.NX ? intReply(result0, 1) : statusReply(result0, "OK"))
+//@ ensures {C18} old(hasDB(server, conn.id)) ==> forall q iface :: q != iface(key) && q != iface(newkey) ==> sm_dom[&recs(server, conn.id).Map][q] == old(sm_dom[&recs(server, conn.id).Map][q]) && sm_val[&recs(server, conn.id).Map][q] == old(sm_val[&recs(server, conn.id).Map][q])
